@@ -2,7 +2,7 @@
 # usage: sweep.sh <tier> <repo-copy> <seed>...   (development aid: silence of all checks on a copy of the unchanged tree)
 tier="$1"; repo="$2"; shift 2
 cd "$(dirname "$0")/.."
-for s in "$@"; do for p in $(./check --list); do
+for s in "$@"; do for p in ${PROPS:-$(./check --list)}; do
   t0=$(date +%s); out=$(VERIF_REPO="$repo" VERIF_SEED=$s ./check $p $tier 2>&1); rc=$?
   echo "SWEEP $p tier=$tier seed=$s exit=$rc $(( $(date +%s)-t0 ))s $(echo "$out" | tail -1 | cut -c1-110)"
   if [ $rc -ne 0 ]; then echo "$out" | grep -v '^\s*$' | tail -25 | cut -c1-600; fi
